@@ -448,6 +448,9 @@ func (e *Env) selectorLocs(root SymVal, fields []string) ([]leafLoc, bool) {
 					if srt == "bool" {
 						k = KBool
 					}
+					if srt == "real" {
+						k = KReal
+					}
 					return []leafLoc{{"$ghost:" + fullTypeKey(stt) + "." + f, cur.S, k, nil}}, true
 				}
 			}
@@ -465,6 +468,9 @@ func (e *Env) selectorLocs(root SymVal, fields []string) ([]leafLoc, bool) {
 					k := KInt
 					if srt == "bool" {
 						k = KBool
+					}
+					if srt == "real" {
+						k = KReal
 					}
 					return []leafLoc{{"$ghost:" + fullTypeKey(stt) + "." + f, cur.S, k, nil}}, true
 				}
@@ -521,6 +527,9 @@ func (e *Env) selectField(x SymVal, name string) (SymVal, error) {
 				k, ss := KInt, "Int"
 				if srt == "bool" {
 					k, ss = KBool, "Bool"
+				}
+				if srt == "real" {
+					k, ss = KReal, "Real"
 				}
 				comp := "$ghost:" + fullTypeKey(stt) + "." + name
 				c.g.compKT[comp] = compKT{k, nil}
@@ -683,6 +692,38 @@ func (e *Env) binary(ex *ast.BinaryExpr) (SymVal, error) {
 			return mkBool(app(">=", x.S, y.S)), nil
 		}
 		return SymVal{}, fmt.Errorf("unsupported int operator %s in spec", ex.Op)
+	}
+	if x.K == KReal || y.K == KReal {
+		if x.K == KInt {
+			x = SymVal{K: KReal, S: app("to_real", x.S)}
+		}
+		if y.K == KInt {
+			y = SymVal{K: KReal, S: app("to_real", y.S)}
+		}
+		if x.K != KReal || y.K != KReal {
+			return SymVal{}, fmt.Errorf("real operator %s on non-numeric operand", ex.Op)
+		}
+		switch ex.Op {
+		case token.ADD:
+			return SymVal{K: KReal, S: app("+", x.S, y.S)}, nil
+		case token.SUB:
+			return SymVal{K: KReal, S: app("-", x.S, y.S)}, nil
+		case token.MUL:
+			return SymVal{K: KReal, S: app("*", x.S, y.S)}, nil
+		case token.EQL:
+			return mkBool(sEq(x.S, y.S)), nil
+		case token.NEQ:
+			return mkBool(sNot(sEq(x.S, y.S))), nil
+		case token.LSS:
+			return mkBool(app("<", x.S, y.S)), nil
+		case token.LEQ:
+			return mkBool(app("<=", x.S, y.S)), nil
+		case token.GTR:
+			return mkBool(app(">", x.S, y.S)), nil
+		case token.GEQ:
+			return mkBool(app(">=", x.S, y.S)), nil
+		}
+		return SymVal{}, fmt.Errorf("unsupported real operator %s", ex.Op)
 	}
 	if x.K == KFloat && y.K == KInt {
 		y = e.intToFloat(y)
@@ -980,7 +1021,47 @@ func (e *Env) call(ex *ast.CallExpr) (SymVal, error) {
 		if err != nil {
 			return SymVal{}, err
 		}
-		return SymVal{K: KOpq, S: app("fp.to_real", x.S), T: nil}, nil
+		if x.K == KInt {
+			return SymVal{K: KReal, S: app("to_real", x.S)}, nil
+		}
+		if x.K == KReal {
+			return x, nil
+		}
+		return SymVal{K: KReal, S: app("fp.to_real", x.S), T: nil}, nil
+	case "fabs":
+		x, err := arg(0)
+		if err != nil {
+			return SymVal{}, err
+		}
+		return SymVal{K: KFloat, S: app("fp.abs", x.S)}, nil
+	case "sametag":
+		a, err := arg(0)
+		if err != nil {
+			return SymVal{}, err
+		}
+		b, err := arg(1)
+		if err != nil {
+			return SymVal{}, err
+		}
+		return mkBool(app("=", app("itag", a.S), app("itag", b.S))), nil
+	case "sign":
+		x, err := arg(0)
+		if err != nil {
+			return SymVal{}, err
+		}
+		z := "0"
+		if x.K == KReal {
+			z = "0.0"
+		}
+		return mkMath(sIte(app("<", x.S, z), "(- 1)", sIte(app("=", x.S, z), "0", "1"))), nil
+	case "trunc":
+		// mathematical truncation toward zero of a finite float, as an Int
+		x, err := arg(0)
+		if err != nil {
+			return SymVal{}, err
+		}
+		r := app("fp.to_real", app("fp.roundToIntegral", "RTZ", x.S))
+		return mkMath(app("to_int", r)), nil
 	case "freshobj":
 		// freshobj(p): p was allocated after function entry
 		x, err := arg(0)
@@ -1050,6 +1131,14 @@ func (e *Env) typeExpr(ex ast.Expr) (types.Type, error) {
 	return nil, fmt.Errorf("unknown type in spec: %v", ex)
 }
 
+func (e *Env) typeExprText(s string) (types.Type, error) {
+	ex, err := parser.ParseExpr(s)
+	if err != nil {
+		return nil, err
+	}
+	return e.typeExpr(ex)
+}
+
 func (e *Env) specSort(tn string) (string, Kind) {
 	switch tn {
 	case "int":
@@ -1063,6 +1152,8 @@ func (e *Env) specSort(tn string) (string, Kind) {
 		return sortFP, KFloat
 	case "string":
 		return "Str", KStr
+	case "real":
+		return "Real", KReal
 	case "ref":
 		return "Ref", KRef
 	case "iface":
